@@ -170,6 +170,34 @@ def replay_nonce(run: Run, world: NonceWorld, beh: list[Any], label: str) -> Non
             return
 
 
+def replay_nonce_spellings(run: Run, world: NonceWorld, beh: list[Any], label: str) -> None:
+    """The same behaviour with the secret nonce held in something the library cannot wipe (bytes, a hex string, a read-only memoryview) or can
+    (a memoryview of the bytearray): whatever the spelling, the nonce signs at most once -- a spelling that cannot be wiped is one that cannot sign."""
+    from btclib.exceptions import BTClibException
+
+    (hist,) = beh
+    for spelling in ("bytes", "hex", "memoryview of bytes", "memoryview of the bytearray"):
+        fresh = world.fresh_nonce()
+        sec: Any = {"bytes": bytes(fresh), "hex": bytes(fresh).hex(), "memoryview of bytes": memoryview(bytes(fresh)), "memoryview of the bytearray": memoryview(fresh)}[spelling]
+        sigs = 0
+        for step, (op, s_, k, _want_last, _want_st) in enumerate(hist):
+            if op != "sign":
+                continue
+            key = world.d[0] if k == "rightkey" else world.d[1]
+            try:
+                world.m.sign(sec, key, world.sessions[s_])
+                sigs += 1
+            except BTClibException:
+                pass
+            except Exception:  # noqa: BLE001   (which exception refuses is C19's subject)
+                pass
+            if sigs > 1:
+                run.violation(f"nonce|{label}|secnonce given as {spelling} signs twice",
+                              f"musig2 secret nonce given as {spelling}: {sigs} partial signatures after {[list(x[:3]) for x in hist[: step + 1]]}; NonceLife allows one",
+                              {"machine": "NonceLife", "history": hist, "step": step, "spelling": spelling})
+                return
+
+
 def _shrink_key(calls: list[Any]) -> str:
     """Canonical key of a failing history: the calls with consecutive repeats collapsed."""
     out: list[Any] = []
@@ -474,6 +502,7 @@ def check(run: Run) -> None:
     behs += _generate(run, "NonceLife", nonce_g(14), "G NonceLife simulate", simulate=3000 if thorough else 300, depth=14)
     for b in behs:
         replay_nonce(run, world, b, "ecc.musig2.sign")
+        replay_nonce_spellings(run, world, b, "ecc.musig2.sign")
         replayed += 1
         nontrivial += any(e[3] == "sig" for e in b[0][:-1])
     run.sample({"machine": "NonceLife", "behaviour": behs[len(behs) // 2][0]})
